@@ -45,6 +45,9 @@ static const std::vector<Sys>& systems() {
 struct Outcome {
     bool threw = false; std::string what;
     size_t iters = 0; double resid = 0; std::vector<double> x;
+    // second call on the same object, form S(A2, rhs, x): the iteration runs on the matrix GIVEN in the call (A2 = A with a
+    // position dependent diagonal shift), preconditioned by the object built for A
+    bool threw2 = false; std::string what2; size_t iters2 = 0; double resid2 = 0; std::vector<double> x2;
     std::string hier;      // levels / unknowns / nonzeros lines of the hierarchy dump ("" when not an AMG)
     int levels = 0;
     bool same(const Outcome &o, std::string &why) const {
@@ -58,6 +61,13 @@ struct Outcome {
         if (x.size() != o.x.size() || i < x.size()) {
             why = vf::KS() << std::setprecision(17) << "x differs first at " << i << ": " << (i < x.size() ? x[i] : 0.0) << " vs " << (i < o.x.size() ? o.x[i] : 0.0);
             return false;
+        }
+        if (threw2 != o.threw2 || (threw2 && what2 != o.what2)) { why = "call form S(A2, rhs, x): exceptions differ: '" + what2 + "' / '" + o.what2 + "'"; return false; }
+        if (!threw2) {
+            if (iters2 != o.iters2) { why = vf::KS() << "call form S(A2, rhs, x): iterations " << iters2 << " vs " << o.iters2; return false; }
+            if (!same_dbl(resid2, o.resid2)) { why = vf::KS() << std::setprecision(17) << "call form S(A2, rhs, x): residual " << resid2 << " vs " << o.resid2; return false; }
+            size_t q = 0; while (q < x2.size() && q < o.x2.size() && same_dbl(x2[q], o.x2[q])) ++q;
+            if (x2.size() != o.x2.size() || q < x2.size()) { why = vf::KS() << std::setprecision(17) << "call form S(A2, rhs, x): x differs first at " << q << ": " << (q < x2.size() ? x2[q] : 0.0) << " vs " << (q < o.x2.size() ? o.x2[q] : 0.0); return false; }
         }
         return true;
     }
@@ -86,6 +96,13 @@ static Outcome run_one(const Sys &s, const Params &prm) {
         Solver S(std::tie(n, s.A.ptr, s.A.col, s.A.val), prm);
         o.x.assign(n, 0.0);
         std::tie(o.iters, o.resid) = S(s.f, o.x);
+        {
+            std::vector<double> val2 = s.A.val;
+            for (size_t i = 0; i < n; ++i) for (auto j = s.A.ptr[i]; j < s.A.ptr[i + 1]; ++j) if ((size_t)s.A.col[j] == i) val2[j] *= 1.0 + 0.0625 * (1 + i % 3);
+            o.x2.assign(n, 0.0);
+            try { std::tie(o.iters2, o.resid2) = S(std::tie(n, s.A.ptr, s.A.col, val2), s.f, o.x2); }
+            catch (const std::exception &e) { o.threw2 = true; o.what2 = e.what(); o.x2.clear(); }
+        }
         if (is_amg<typename std::decay<decltype(S.precond())>::type>::value) {
             std::ostringstream os; os << S.precond(); o.hier = hier_of(os.str(), o.levels);
         }
